@@ -32,6 +32,11 @@ def expected_snapshot(pr, before):
     exp["bumpver.toml"] = before["bumpver.toml"].replace(
         ('current_version = %s' % json.dumps(pr["old"], ensure_ascii=False)).encode("utf-8"),
         ('current_version = %s' % json.dumps(pr["new"], ensure_ascii=False)).encode("utf-8"), 1)
+    if pr.get("variants") and pr.get("glob_self"):
+        # the [project] table's own version line, covered by the "*.toml" glob entry
+        exp["bumpver.toml"] = exp["bumpver.toml"].replace(
+            ('[project]\nversion = %s' % json.dumps(pr["old"], ensure_ascii=False)).encode("utf-8"),
+            ('[project]\nversion = %s' % json.dumps(pr["new"], ensure_ascii=False)).encode("utf-8"), 1)
     return exp
 
 
